@@ -261,6 +261,17 @@ def h_formatters(sx):
         line = re.sub(r" *# \d+\.\d+s$", "", line)
         want = "".join(chars[model[sname]["status"]] for sname, _ in processed if sname in model)
         sx.check(line == want, "C15.progress-one-char-per-shown-scenario", detail=lambda m: dict(det(m), progress=line, expected=want, text=text[:300]))
+    if "progress2" in names:
+        # the problem report at the end of each feature names every failed / errored step of THAT feature exactly once
+        text = streams["progress2"].getvalue()
+        blocks = re.findall(r"^(FAILURE|ERROR) in step '([^']*)':\n  Feature:  (.*)\n  Scenario: (.*)$", text, re.M)
+        got_blocks = sorted((k_, n_, sc_) for k_, n_, f_, sc_ in blocks)
+        want_blocks = sorted(("FAILURE" if st == "failed" else "ERROR", n_, sname) for sname, res in processed for n_, st in res
+                             if st in ("failed", "error", "hook_error", "cleanup_error", "undefined", "pending"))
+        sx.check(got_blocks == want_blocks, "C15.progress2-problem-report-names-each-problem-step-once",
+                 detail=lambda m: dict(det(m), reported=got_blocks, expected=want_blocks))
+        sx.check(all(sc_.startswith(f_) for _, _, f_, sc_ in blocks), "C15.progress2-problem-report-names-each-problem-step-once",
+                 detail=lambda m: dict(det(m), blocks=blocks))
     if "progress3" in names:
         text = streams["progress3"].getvalue()
         lines = [l.strip() for l in text.splitlines()]
